@@ -9,7 +9,7 @@ import itertools
 from typing import Dict, List, Optional, Tuple
 
 from ..db import ProgramDB, FuncInfo, ClassInfo, AnalysisError, unparse, own_nodes, dotted
-from ..facts import returns_of, bind_args, fn_params, resolve_call_target, own_calls, call_attr, is_cache_switch_call
+from ..facts import local_defs, returns_of, bind_args, fn_params, resolve_call_target, own_calls, call_attr, is_cache_switch_call
 from ..framework import inst, HOLDS, VIOLATION, UNDECIDED, INFO, Instance
 from ..abseval import AbsEval, State, const, TOP, TRUE, FALSE, truth
 from ..cfg import CFG
@@ -51,7 +51,16 @@ def comparator_application_order(db: ProgramDB) -> Tuple[str, str, FuncInfo]:
     if len(call.args) != 2 or call.keywords:
         raise AnalysisError(f"`{unparse(call)}`: operation not applied to two positional operands")
     order = []
+    defs = local_defs(m)
     for a in call.args:
+        # a local that is assigned once stands for its defining expression
+        seen = 0
+        while isinstance(a, ast.Name) and seen < 4:
+            ds = [d for d in defs.get(a.id, []) if isinstance(d, ast.AST)]
+            if len(ds) != 1:
+                break
+            a = ds[0]
+            seen += 1
         fields = {n.attr for n in ast.walk(a) if isinstance(n, ast.Attribute) and isinstance(n.value, ast.Name)
                   and n.value.id == "self" and n.attr in ("left", "right")}
         if len(fields) != 1:
@@ -295,16 +304,16 @@ def rule_operand_in_row(db: ProgramDB) -> List[Instance]:
         writes = []
         for n in own_nodes(m.node):
             if isinstance(n, ast.Call) and call_attr(n) == "update" and isinstance(n.func.value, ast.Name) and n.func.value.id == row:
-                writes.append((n.lineno, unparse(n.args[0]) if n.args else ""))
+                writes.append(((n.lineno, n.col_offset), unparse(n.args[0]) if n.args else ""))
             elif isinstance(n, ast.Assign) and any(isinstance(t, ast.Name) and t.id == row for t in n.targets):
                 v = n.value
                 if isinstance(v, ast.Dict):
                     for k, vv in zip(v.keys, v.values):
                         if k is None:
-                            writes.append((n.lineno, unparse(vv)))
+                            writes.append(((vv.lineno, vv.col_offset), unparse(vv)))
                 else:
-                    writes.append((n.lineno, unparse(v)))
-        writes.sort()
+                    writes.append(((n.lineno, n.col_offset), unparse(v)))
+        writes.sort(key=lambda w: w[0])
         names = [w for _, w in writes]
         ok = mapname in names and names.index(mapname) == max(i for i, w in enumerate(names) if w)  # last merge
         out.append(inst("OPERAND-IN-ROW", HOLDS if ok else VIOLATION, m, f"Comparator._evaluate__[row {row}]",
